@@ -321,6 +321,24 @@ def crowded(S1, mid):
     return specs.three_distinct(lambda r: And(S1.t(MS).live[r], S1.t(MS).cols["mailbox_id"][r] == mid))
 
 
+def registry_effect(S0, S1, me, a, mid):
+    """the Mailbox object registered for key mid afterwards is the one registered before, or a
+    freshly allocated one with (_app, _app_id, _mailbox_id) = (me, a, mid) and no listeners;
+    nothing else in the registries, the allocation map or any Mailbox object changes"""
+    m0 = hp(S0, "AppNamespace._mailboxes")
+    old = m0[me][mid]
+    new = hp(S1, "AppNamespace._mailboxes")[me][mid]
+    fresh_obj = And(Not(S0.alloc[new]), S1.alloc == Store(S0.alloc, new, True),
+                    hp(S1, "Mailbox._app") == Store(hp(S0, "Mailbox._app"), new, me),
+                    hp(S1, "Mailbox._app_id") == Store(hp(S0, "Mailbox._app_id"), new, a),
+                    hp(S1, "Mailbox._mailbox_id") == Store(hp(S0, "Mailbox._mailbox_id"), new, mid),
+                    hp(S1, "Mailbox._listeners") == Store(hp(S0, "Mailbox._listeners"), new, K(INT, BoolVal(False))))
+    same_obj = And(new == old, S1.alloc == S0.alloc,
+                   *[hp(S1, f[5:]) == hp(S0, f[5:]) for f in MAILBOX_FIELDS])
+    return And(new != 0, hp(S1, "AppNamespace._mailboxes") == Store(m0, me, Store(m0[me], mid, new)),
+               If(old != 0, same_obj, fresh_obj))
+
+
 def open_mailbox_post(c, res):
     S0, S1 = c.pre, c.post
     a, mid, side, when = c.sf("_app_id"), c.a.t("mailbox_id"), c.a.t("side"), c.a.t("when")
@@ -406,7 +424,8 @@ def claim_post(c, res):
         cl = [tbl_eq(np0, np1), S1.np_next == S0.np_next,
               ns_row_post(S0, S1, n, side, when),
               is_update(S0.t(MB), S1.t(MB), lambda r: r.id == mid, {"updated": when}),
-              side_row_post(S0, S1, mid, side, when)]
+              side_row_post(S0, S1, mid, side, when),
+              registry_effect(S0, S1, c.self_ref, a, mid)]
         if res is not None:
             cl.append(res == mid)
         return And(*cl)
@@ -422,7 +441,8 @@ def claim_post(c, res):
                   is_insert(S0.t(MB), S1.t(MB), {"app_id": a, "id": g, "for_nameplate": BoolVal(True),
                                                  "updated": when}),
                   is_insert(S0.t(MS), S1.t(MS), {"mailbox_id": g, "opened": BoolVal(True), "side": side,
-                                                 "added": when}))
+                                                 "added": when}),
+                  registry_effect(S0, S1, c.self_ref, a, g))
         yield "new", Implies(Not(existed), new), ["C03", "C04", "C07"]
         # C03: the answer is the mailbox of the one live nameplate (a, name)
         yield "returns_row_mailbox", np1.exists(lambda r: And(r.app_id == a, r.name == name, r.mailbox_id == res)), ["C03"]
@@ -437,14 +457,22 @@ def _(c):
     yield from claim_post(c, to_term(c.result, "str"))
 
 
+def claim_reclaimed(c):
+    S0 = c.pre
+    a, name, side = c.sf("_app_id"), c.a.t("name"), c.a.t("side")
+    N = N_pred(S0, a, name)
+    return EX([INT], lambda n: And(N(n), S0.t(NS).exists(
+        lambda r: And(r.nameplates_id == n, r.side == side, Not(r.claimed)))))
+
+
 def claim_crowded(c):
     S0, S1 = c.pre, c.post
     a, name = c.sf("_app_id"), c.a.t("name")
     N = N_pred(S0, a, name)
     ns1 = S1.t(NS)
-    return EX([INT], lambda n: And(N(n), Or(
+    return And(Not(claim_reclaimed(c)), EX([INT], lambda n: And(N(n), Or(
         crowded(S1, S0.t(NP).cols["mailbox_id"][n]),
-        specs.three_distinct(lambda r: And(ns1.live[r], ns1.cols["nameplates_id"][r] == n)))))
+        specs.three_distinct(lambda r: And(ns1.live[r], ns1.cols["nameplates_id"][r] == n))))))
 
 
 @c.raises("CrowdedError", "third_side", tags=["C05"])
@@ -456,11 +484,7 @@ def _(c):
 
 @c.raises("ReclaimedError", "released_before", tags=["C07", "C09"])
 def _(c):
-    S0 = c.pre
-    a, name, side = c.sf("_app_id"), c.a.t("name"), c.a.t("side")
-    N = N_pred(S0, a, name)
-    yield "when", EX([INT], lambda n: And(N(n), S0.t(NS).exists(
-        lambda r: And(r.nameplates_id == n, r.side == side, Not(r.claimed)))))
+    yield "when", claim_reclaimed(c)
     yield "no_change", unchanged(c, CLAIM_MOD)
 
 
@@ -497,6 +521,15 @@ def _(c):
         S1.t(NS).exists(lambda r: And(r.nameplates_id == n1, r.side == side, r.claimed))), ["C04"]
     yield "committed", Not(S1.in_tx["ch"]), ["C09"]
     yield "registry_wf", registry_wf(S1, c.self_ref), ["C02"]
+    yield "registry_effect", registry_effect(S0, S1, c.self_ref, a, S1.t(NP).cols["mailbox_id"][n1]), ["C02"]
+    # the rest of the database moves as in a claim of a new name
+    g = S1.t(NP).cols["mailbox_id"][n1]
+    yield "as_new_claim", And(
+        fresh_id(S0, g),
+        is_insert(S0.t(NP), S1.t(NP), {"app_id": a, "name": res, "mailbox_id": g}, rowid=n1), S1.np_next == n1 + 1,
+        is_insert(S0.t(NS), S1.t(NS), {"nameplates_id": n1, "claimed": BoolVal(True), "side": side, "added": when}),
+        is_insert(S0.t(MB), S1.t(MB), {"app_id": a, "id": g, "for_nameplate": BoolVal(True), "updated": when}),
+        is_insert(S0.t(MS), S1.t(MS), {"mailbox_id": g, "opened": BoolVal(True), "side": side, "added": when})), ["C04", "C07"]
 
 
 @c.raises("ValueError", "exhausted", tags=["C04", "C17"], iff=False)
@@ -555,3 +588,22 @@ def release_post(c):
 @c.ensures
 def _(c):
     yield from release_post(c)
+
+
+# ------------------------------------------------ invariant preservation (induction over events)
+from pvc.contract import REGISTRY as _R    # noqa: E402
+I.add_preserves(_R["server.AppNamespace.open_mailbox"], names=[n for n in I.DB_INV if n != "I9a"], raises=["CrowdedError"])
+
+
+@_R["server.AppNamespace.open_mailbox"].requires
+def _(c):
+    # the mailbox being opened may still lack its side row (claim creates it just before)
+    yield "I9a_but_this", I.I9a_but(c.pre, c.a.t("mailbox_id"))
+
+
+@_R["server.AppNamespace.open_mailbox"].ensures
+def _(c):
+    yield "preserves.I9a", I.I9a(c.post), ["C10", "C13", "C15"]
+I.add_preserves(_R["server.AppNamespace.claim_nameplate"], raises=["CrowdedError"])
+I.add_preserves(_R["server.AppNamespace.allocate_nameplate"])
+I.add_preserves(_R["server.AppNamespace.release_nameplate"])
